@@ -67,7 +67,7 @@ class GOP(SHarness):
 
     def points(self, tier):
         for g in gen.graph_box(4 if tier == 'quick' else 5):
-            if g['n'] == 5 and len(g['edges']) % 5:
+            if g['n'] == 5 and len(g['edges']) % 2:
                 continue
             for var in VARIANTS:
                 for plant in (False, True):
@@ -111,7 +111,7 @@ class OP(GOP):
     name = 'c03.op'
 
     def points(self, tier):
-        for n in range(0, 6 if tier == 'quick' else 7):
+        for n in range(0, 6 if tier == 'quick' else 8):
             for var in VARIANTS:
                 for plant in (False, True):
                     yield dict(n=n, plant=plant, **var)
@@ -495,7 +495,7 @@ class VdW(SHarness):
     name = 'c03.vdw'
 
     def points(self, tier):
-        top = 9 if tier == 'quick' else 11
+        top = 9 if tier == 'quick' else 13
         for N in range(0, top + 1):
             for ks in itertools.chain(itertools.product(range(1, 5), repeat=2), itertools.product(range(1, 4), repeat=3)):
                 if len(ks) == 3 and (tier == 'quick' and N > 7):
